@@ -32,6 +32,7 @@ _add("C11", "bounded symbolic verification: operation histories of depth 1-2 (3 
 _add("C04", "bounded symbolic verification over enumerated composite-shape configurations (rank 0-2, sizes 1-2 quick; sizes up to 3 and rank 3 thorough) with all entries distinct symbols: matrix_product, apply in three broadcast modes, vectorised point / segment / polygon / SL(2) operations and restructuring compared unit by unit")
 _add("C08", "bounded symbolic verification in exact algebraic arithmetic (cos(pi/m) as algebraic atoms): involution, (s_i s_j)^m = 1, exact order, cosine-form preservation, reflection formula, canonical = dual, construction routes / naming agree, Tits-Vinberg and non-symmetric Cartan parameters, for rank 2 (labels 2..12, inf), 130 rank-3 triples and rank 4-5 samples (quick); hyperbolic_rep and triangle angles are outside (stated)")
 _add("C13", "bounded symbolic verification in H^2: origin_to targets, point_along with a symbolic signed distance t = ln E (exact side, distance and geodesic), reaching q along the unit tangent, the hyperbolic law of cosines for TangentVector.angle (arccos/arctan carried by cosine and sine), regular polygons with 3, 4, 6 sides (5, 7, 8 attempted in thorough) with symbolic interior angle and exact cos(pi/n)")
+_add("C18", "bounded symbolic verification of indefinite_orthogonalize (signatures p+q<=3), find_isometry (null-space stub), diagonalize_form (spectral eigh stub, n<=3), svd_kernel (SVD stub, rank patterns up to 3x3), circle_through / sphere_through and the arc-ordering helpers on arctan2 angles modelled as plane directions")
 NA = {}
 def main():
     checks = []
